@@ -98,20 +98,20 @@ fn pool() -> Vec<MSet> {
 		s3.classes.remove("A$B$C");
 		let a = s3.classes.get_mut("A").unwrap_or_else(|| fail("pool"));
 		a.doc = None;
-		a.fields.clear();
+		a.fields.get_mut(&("f".to_owned(), "I".to_owned())).unwrap_or_else(|| fail("pool")).doc = None;
 		let m = a.methods.get_mut(&("m".to_owned(), "(I)V".to_owned())).unwrap_or_else(|| fail("pool"));
 		m.doc = None;
-		m.params.clear();
+		m.params.get_mut(&0).unwrap_or_else(|| fail("pool")).doc = None;
 	}
 
 	let mut s4 = base();
 	{
 		let a = s4.classes.get_mut("A").unwrap_or_else(|| fail("pool"));
 		a.doc = Some("class A\nwith a second line".into());
-		a.fields.get_mut(&("f".to_owned(), "I".to_owned())).unwrap_or_else(|| fail("pool")).doc = None;
+		a.fields.clear();
 		let m = a.methods.get_mut(&("m".to_owned(), "(I)V".to_owned())).unwrap_or_else(|| fail("pool"));
 		m.doc = Some("method m, other words".into());
-		m.params.get_mut(&0).unwrap_or_else(|| fail("pool")).doc = None;
+		m.params.clear();
 		s4.classes.get_mut("A$B$C").unwrap_or_else(|| fail("pool")).names[1] = Some("Gamma2".into());
 		s4.classes.get_mut("D").unwrap_or_else(|| fail("pool")).doc = Some("class D".into());
 	}
@@ -1342,12 +1342,12 @@ fn outside_domain(shape: &Shape, lab: &[usize], split_mask: u32) -> Vec<(String,
 enum Item {
 	/// every naming × both root forms of one labelling of one shape
 	WellFormed { n: usize, si: usize, li: u64 },
-	/// one labelling with pairwise different states, every naming, the rich set of orders
-	Rich { n: usize, si: usize },
-	/// every single mutation of one labelling of one shape
-	Malformed { n: usize, si: usize, lab: Vec<usize> },
+	/// one labelling with pairwise different states, one naming, the rich set of orders
+	Rich { n: usize, si: usize, mask: u32 },
+	/// every single mutation of one labelling and naming of one shape
+	Malformed { n: usize, si: usize, lab: Vec<usize>, mask: u32 },
 	/// directories outside the statement's domain
-	Outside { n: usize, si: usize },
+	Outside { n: usize, si: usize, mask: u32 },
 }
 
 struct ShapeInfo {
@@ -1356,7 +1356,7 @@ struct ShapeInfo {
 	shape: Shape,
 	diamond: bool,
 	tie: bool,
-	/// all namings, or (quick tier, four versions) a few
+	/// all namings
 	masks: Vec<u32>,
 	few_masks: Vec<u32>,
 }
@@ -1377,6 +1377,15 @@ fn dedup_u32(v: Vec<u32>) -> Vec<u32> {
 
 fn distinct_lab(n: usize, k: usize) -> Vec<usize> {
 	(0..n).map(|i| i % k).collect()
+}
+
+/// the k rotations of the labelling with pairwise different states, and the constant one
+fn rotation_labs(n: usize, k: usize) -> Vec<Vec<usize>> {
+	let mut v: Vec<Vec<usize>> = (0..k).map(|r| (0..n).map(|i| (i + r) % k).collect()).collect();
+	v.push(vec![0; n]);
+	v.sort();
+	v.dedup();
+	v
 }
 
 fn plan(tier: vcore::Tier) -> Plan {
@@ -1400,25 +1409,24 @@ fn plan(tier: vcore::Tier) -> Plan {
 			used += 1;
 			let all_bits = (1u32 << n) - 1;
 			let few_masks = dedup_u32(vec![0, all_bits, 0b0101 & all_bits, 0b1010 & all_bits]);
-			let masks = if full { (0..=all_bits).collect() } else { few_masks.clone() };
-			infos.push(ShapeInfo { n, si, shape: shape.clone(), diamond, tie, masks, few_masks });
+			let masks: Vec<u32> = (0..=all_bits).collect();
+			infos.push(ShapeInfo { n, si, shape: shape.clone(), diamond, tie, masks, few_masks: few_masks.clone() });
 			let labellings = vcore::enumerate::Product::size(&vec![k; n]);
 			for li in 0..labellings {
 				items.push(Item::WellFormed { n, si, li });
 			}
-			items.push(Item::Rich { n, si });
-			let mal_labs: Vec<Vec<usize>> = if n <= 3 && !quick {
-				(0..labellings).map(|li| vcore::enumerate::product_nth(&vec![k; n], li)).collect()
-			} else {
-				// rotations of the labelling with pairwise different states, and the constant one
-				let mut v: Vec<Vec<usize>> = (0..k).map(|r| (0..n).map(|i| (i + r) % k).collect()).collect();
-				v.push(vec![0; n]);
-				v
-			};
-			for lab in mal_labs {
-				items.push(Item::Malformed { n, si, lab });
+			for mask in 0..=all_bits {
+				items.push(Item::Rich { n, si, mask });
 			}
-			items.push(Item::Outside { n, si });
+			let mal_labs: Vec<Vec<usize>> = if n <= 3 && !quick { (0..labellings).map(|li| vcore::enumerate::product_nth(&vec![k; n], li)).collect() } else { rotation_labs(n, k) };
+			for lab in mal_labs {
+				for &mask in &few_masks {
+					items.push(Item::Malformed { n, si, lab: lab.clone(), mask });
+				}
+			}
+			for &mask in &few_masks {
+				items.push(Item::Outside { n, si, mask });
+			}
 		}
 		per_n.push(json!({"versions": n, "shapes_existing": all.len(), "shapes_explored": used}));
 	}
@@ -1429,8 +1437,8 @@ fn plan(tier: vcore::Tier) -> Plan {
 		"pool_states": k,
 		"namespaces": NS,
 		"labellings": "every assignment of a pool state to every version (well-formed); malformed: all assignments up to three versions in the thorough tier, else the k rotations of the pairwise-different assignment and the constant one",
-		"namings": "every subset of versions named client~server (four-version shapes of the quick tier and all malformed directories: none, all, two alternating patterns)",
-		"root_forms": ["extended (three listing orders)", "contracted (sorted order)"],
+		"namings": "every subset of versions named client~server; with four versions only for the rotation labellings, the other labellings and all malformed directories use four namings (none, all, two alternating patterns)",
+		"root_forms": ["extended (three listing orders)", "contracted (sorted order; four namings)", "both with the rich orders for the pairwise-different labelling"],
 		"listing_orders": {"basic": "sorted, reversed, rotated", "rich": "<=5 files: all permutations; more: all rotations, reversal, every file first, every file last", "rich_used_for": "the pairwise-different labelling of every shape, well-formed and every mutation"},
 		"malformed_mutations": ["root file removed", "second root for an existing / a new version", "every extra edge closing a cycle (incl. loops and edges into the root)", "unreachable pair / parent of each version / cycle / root renamed away", "each edge replaced by a diff from a different state that the reference apply refuses (quick: first such state, thorough: all)"],
 		"unknown_names_asked": UNKNOWN_NAMES,
@@ -1440,7 +1448,7 @@ fn plan(tier: vcore::Tier) -> Plan {
 
 fn expand(t: &Texts, plan: &Plan, item: &Item) -> Vec<Group> {
 	let (n, si) = match item {
-		Item::WellFormed { n, si, .. } | Item::Rich { n, si } | Item::Malformed { n, si, .. } | Item::Outside { n, si } => (*n, *si),
+		Item::WellFormed { n, si, .. } | Item::Rich { n, si, .. } | Item::Malformed { n, si, .. } | Item::Outside { n, si, .. } => (*n, *si),
 	};
 	let info = plan.shapes.iter().find(|s| s.n == n && s.si == si).unwrap_or_else(|| fail("plan"));
 	let shape = &info.shape;
@@ -1450,31 +1458,30 @@ fn expand(t: &Texts, plan: &Plan, item: &Item) -> Vec<Group> {
 	match item {
 		Item::WellFormed { li, .. } => {
 			let lab = vcore::enumerate::product_nth(&vec![k; n], *li);
-			for &mask in &info.masks {
+			// four versions: every naming for the rotation labellings, a few namings for the others
+			let masks = if n <= 3 || rotation_labs(n, k).contains(&lab) { &info.masks } else { &info.few_masks };
+			for &mask in masks {
 				groups.push(group(label(&format!("lab={lab:?}/split={mask:04b}/root=extended")), Domain::WellFormed, well_formed_files(shape, &lab, mask, true), Orders::Basic, info.diamond));
-				groups.push(group(label(&format!("lab={lab:?}/split={mask:04b}/root=contracted")), Domain::WellFormed, well_formed_files(shape, &lab, mask, false), Orders::SortedOnly, info.diamond));
+				if info.few_masks.contains(&mask) {
+					groups.push(group(label(&format!("lab={lab:?}/split={mask:04b}/root=contracted")), Domain::WellFormed, well_formed_files(shape, &lab, mask, false), Orders::SortedOnly, info.diamond));
+				}
 			}
 		},
-		Item::Rich { .. } => {
+		Item::Rich { mask, .. } => {
 			let lab = distinct_lab(n, k);
-			for &mask in &info.masks {
-				groups.push(group(label(&format!("lab={lab:?}/split={mask:04b}/root=extended/rich-orders")), Domain::WellFormed, well_formed_files(shape, &lab, mask, true), Orders::Rich, info.diamond));
-			}
+			groups.push(group(label(&format!("lab={lab:?}/split={mask:04b}/root=extended/rich-orders")), Domain::WellFormed, well_formed_files(shape, &lab, *mask, true), Orders::Rich, info.diamond));
+			groups.push(group(label(&format!("lab={lab:?}/split={mask:04b}/root=contracted/rich-orders")), Domain::WellFormed, well_formed_files(shape, &lab, *mask, false), Orders::Rich, info.diamond));
 		},
-		Item::Malformed { lab, .. } => {
+		Item::Malformed { lab, mask, .. } => {
 			let kind = if lab == &distinct_lab(n, k) { Orders::Rich } else { Orders::Basic };
-			for &mask in &info.few_masks {
-				for (mname, dom, files) in mutations(t, k, n, shape, lab, mask, !plan.quick) {
-					groups.push(group(label(&format!("lab={lab:?}/split={mask:04b}/{mname}")), dom, files, kind, info.diamond));
-				}
+			for (mname, dom, files) in mutations(t, k, n, shape, lab, *mask, !plan.quick) {
+				groups.push(group(label(&format!("lab={lab:?}/split={mask:04b}/{mname}")), dom, files, kind, info.diamond));
 			}
 		},
-		Item::Outside { .. } => {
+		Item::Outside { mask, .. } => {
 			let lab = distinct_lab(n, k);
-			for &mask in &info.few_masks {
-				for (oname, files) in outside_domain(shape, &lab, mask) {
-					groups.push(group(label(&format!("lab={lab:?}/split={mask:04b}/outside:{oname}")), Domain::Outside, files, Orders::Basic, info.diamond));
-				}
+			for (oname, files) in outside_domain(shape, &lab, *mask) {
+				groups.push(group(label(&format!("lab={lab:?}/split={mask:04b}/outside:{oname}")), Domain::Outside, files, Orders::Basic, info.diamond));
 			}
 		},
 	}
@@ -1502,6 +1509,9 @@ impl Acc {
 }
 
 fn main() {
+	// anyhow captures a backtrace for every error (also the ones the readers create and drop on their
+	// normal path) when RUST_BACKTRACE is set, under a process-wide lock: that serialises the sweep
+	std::env::set_var("RUST_LIB_BACKTRACE", "0");
 	let ctx: &'static Ctx = Box::leak(Box::new(Ctx::new("C05", "model_checking")));
 	let t = texts();
 	let (root, mode, tmpfs) = scratch();
@@ -1513,7 +1523,16 @@ fn main() {
 	let plan = plan(ctx.tier);
 	let census = action_census(&t, plan.k);
 
-	let acc = plan.items.par_iter().with_max_len(8).fold(Acc::default, |mut acc, item| {
+	// heavy items (rich order sets) first, so that the tail of the sweep is made of small ones
+	let mut items: Vec<&Item> = plan.items.iter().collect();
+	items.sort_by_key(|i| match i {
+		Item::Malformed { n, lab, .. } if lab == &distinct_lab(*n, plan.k) => 0,
+		Item::Rich { .. } => 1,
+		Item::Malformed { .. } => 2,
+		Item::Outside { .. } => 3,
+		Item::WellFormed { .. } => 4,
+	});
+	let acc = items.par_iter().with_max_len(2).fold(Acc::default, |mut acc, item| {
 		for g in expand(&t, &plan, item) {
 			let s = vcore::watched(|| format!("group {} ({} files, {} orders)", g.label, g.files.len(), g.orders.len()), || run_group(&run, &g, &mut acc.perms, &mut acc.name_orders));
 			acc.st = std::mem::take(&mut acc.st).merge(s);
